@@ -176,7 +176,9 @@ def run_voided(unit, seed, acc):
 
     R = "{http://schemas.openxmlformats.org/officeDocument/2006/relationships}"
     rnd = env.rng("C06", "voided", seed)
-    for which, numbering in [(w_, n_) for w_ in range(3) for n_ in ((2, 3, 4), (2, 5, 9), (5, 2, 9), (9, 7, 5), (3, 4, 5))]:
+    # (image ids..., id of the slide's layout relationship): gaps, ids out of order, rId1 free below a dense block
+    numberings = ((2, 3, 4, 1), (2, 5, 9, 1), (5, 2, 9, 1), (9, 7, 5, 1), (3, 4, 5, 1), (2, 3, 4, 5), (3, 4, 5, 2), (1, 2, 3, 4))
+    for which, numbering in [(w_, n_) for w_ in (0, 1, 2, None) for n_ in numberings]:
         for later in ("picture", "hyperlink", "chart", "movie"):
             prs = pptx.Presentation()
             s = prs.slides.add_slide(prs.slide_layouts[6])
@@ -189,13 +191,17 @@ def run_voided(unit, seed, acc):
             name = "ppt/slides/_rels/slide1.xml.rels"
             root = etree.fromstring(out[name], opcx.PLAIN)
             imgs = sorted((r_ for r_ in root if r_.get("Type", "").endswith("/image")), key=lambda r_: r_.get("Id"))
-            imgs[which].set("Target", "../media/NULL")
+            if which is not None:
+                imgs[which].set("Target", "../media/NULL")
+            lay = next(r_ for r_ in root if r_.get("Type", "").endswith("/slideLayout"))
+            lay.set("Id", "rIdL")
             # the three image relationships numbered as another producer might have numbered them (gaps, not in order)
             sx = out["ppt/slides/slide1.xml"]
             for r_, num in zip(imgs, numbering):
                 sx = sx.replace(b'r:embed="%s"' % r_.get("Id").encode(), b'r:embed="tmp%d"' % num)
                 r_.set("Id", "rId%d" % num)
             out["ppt/slides/slide1.xml"] = sx.replace(b'r:embed="tmp', b'r:embed="rId')
+            lay.set("Id", "rId%d" % numbering[3])
             out[name] = etree.tostring(root, xml_declaration=True, encoding="UTF-8", standalone=True)
             buf = io.BytesIO()
             with zipfile.ZipFile(buf, "w", zipfile.ZIP_DEFLATED) as zf:
@@ -208,6 +214,7 @@ def run_voided(unit, seed, acc):
             for k in range(3):
                 mentioned = {v for el in s._element.iter() if isinstance(el.tag, str) for a, v in el.attrib.items() if a.startswith(R)}
                 before = set(s.part.rels.keys())
+                held = {k_: (r_.reltype, r_.target_ref if r_.is_external else r_.target_part) for k_, r_ in s.part.rels.items()}
                 try:
                     if later == "picture":
                         s.shapes.add_picture(io.BytesIO(gen.png_bytes(rnd)), 0, 0)
@@ -229,6 +236,10 @@ def run_voided(unit, seed, acc):
                     acc.violation("voided:addition-raises:%s:%s" % (later, type(e).__name__), "adding a %s to a slide with a voided relationship raised %r" % (later, e), wit)
                     break
                 new = set(s.part.rels.keys()) - before
+                changed = sorted(k_ for k_, v_ in held.items() if k_ not in s.part.rels or (s.part.rels[k_].reltype, s.part.rels[k_].target_ref if s.part.rels[k_].is_external else s.part.rels[k_].target_part) != v_)
+                if changed:
+                    acc.violation("rId-in-use", "%s added to a slide whose relationships are numbered %s: relationship(s) %s that were there now designate something else (their id was handed out again)" % (later, sorted(before), changed), wit)
+                    break
                 acc.count("relationship_ids_handed_out_beside_a_voided_one", len(new))
                 clash = sorted(new & mentioned)
                 if clash:
